@@ -1,7 +1,8 @@
 SPECIFICATION Spec
 CONSTANTS
   MaxOps = 2
-  SplitPairs = FALSE
+  SplitPairs = TRUE
+  LocalRenameSource = FALSE
   StaleStat = TRUE
   B2B = TRUE
   WithRoot = TRUE
